@@ -284,6 +284,14 @@ class Cands:
         return res
 
 
+def hidden_residue(kind):
+    """Kinds that prove residue no clean-up of the visible state removes:
+    what the same process does afterwards is not attributable to the case
+    in hand any more, so the shard's walk ends there (it is reported)."""
+    return any(w in kind for w in ('bytes-differ', 'outcome-differs',
+                                   'outside-unit'))
+
+
 def _ksmall(v):
     return (v['size'], core.canon(v['case']), v['pos'], core.canon(v['walk']))
 
@@ -319,10 +327,17 @@ def check_rep(prog, builds):
             outs.append(['ok', gp.sd_bytes(sd)])
         except Exception as e:
             outs.append(['raise', type(e).__name__])
-        if main._current_synthdef is not None and not dis:
-            dis.append(('rep-context-left-set', None,
-                        f'after build {len(outs)} ({outs[-1][0]})', ''))
+        if main._current_synthdef is not None:
+            if not dis:
+                dis.append(('rep-context-left-set', None,
+                            f'after build {len(outs)} ({outs[-1][0]})', ''))
             main._current_synthdef = None
+        if main._def_build_lock.locked():
+            if not dis:
+                dis.append(('rep-build-lock-left-held', 'free',
+                            f'held after build {len(outs)} ({outs[-1][0]})',
+                            ''))
+            force_clean()
     first = outs[0]
     for i, o in enumerate(outs[1:], 1):
         if o[0] != first[0]:
@@ -365,6 +380,9 @@ def work_rep(job):
                       obs, detail, len(prog['stmts']) * 10000 +
                       len(core.canon(prog)))
         acc.case(prog, nt, outcome, steps=job['builds'])
+        if any(hidden_residue(d[0]) for d in dis):
+            acc.count('shards_stopped_after_hidden_residue')
+            break
     return cands.dump(acc.result())
 
 
@@ -449,6 +467,9 @@ def work_hist(job):
             acc.case({'part': 'b', 'history': hist}, hist_nontrivial(hist),
                      [hist, obs['outcome']], steps=0)
         acc.tr += 1
+        if any(hidden_residue(d[0]) for d in dis):
+            acc.count('shards_stopped_after_hidden_residue')
+            break
     res = acc.result()
     res['tv'] = res['tr']
     return cands.dump(res)
@@ -509,6 +530,7 @@ def census_child():
     import faulthandler
     faulthandler.dump_traceback_later(170, exit=True)
     mode, order, tagbase, slice_of, repo, focus, repeat = sys.argv[1:8]
+    only = len(sys.argv) > 8 and sys.argv[8] == 'only'
     if repo not in sys.path:
         sys.path.insert(0, repo)
     if mode == 'nrt':
@@ -525,8 +547,12 @@ def census_child():
         from mc import seams
         ex = seams.Execution([], start_clocks=False)
     items = [('d:' + k, k) for k in ALL_DEFS]
-    for i, p in enumerate(census_programs(int(tagbase), int(slice_of))):
-        items.append((f'p:{i}', p))
+    if only:
+        # pristine reference: this one definition is the first thing built
+        items = [it for it in items if it[0] == focus]
+    else:
+        for i, p in enumerate(census_programs(int(tagbase), int(slice_of))):
+            items.append((f'p:{i}', p))
     if order == 'rev':
         items.reverse()
     from sc3.base.main import main
@@ -551,9 +577,9 @@ def census_child():
                     o = ['ok', _sha(gp.sd_bytes(sd))]
                 except Exception as e:
                     o = ['raise', type(e).__name__]
-            if main._current_synthdef is not None:
-                # known residue must not turn into a second disagreement
-                main._current_synthdef = None
+            # visible residue is part (b)'s business; here it must neither
+            # become a second disagreement nor block the next build
+            force_clean()
             if o not in seen:
                 seen.append(o)
             if iid != focus:
@@ -569,7 +595,8 @@ def census_child():
     sys.stdout.flush()
 
 
-def census_run(cfg, tagbase, slice_of, focus='-', repeat=1, timeout=240):
+def census_run(cfg, tagbase, slice_of, focus='-', repeat=1, timeout=240,
+               only=False):
     """cfg = [mode, hashseed, order] -> {item: outcome}; parent side or
     replay worker (mode None)."""
     mode, hashseed, order = cfg
@@ -581,8 +608,8 @@ def census_run(cfg, tagbase, slice_of, focus='-', repeat=1, timeout=240):
             'from mc.checks import c20; c20.census_child()')
     r = subprocess.run(
         [PYTHON, '-B', '-c', code, mode, order, str(tagbase), str(slice_of),
-         core.REPO, focus, str(repeat)], env=env, capture_output=True,
-        text=True, timeout=timeout, cwd=core.VERIF)
+         core.REPO, focus, str(repeat), 'only' if only else 'all'], env=env,
+        capture_output=True, text=True, timeout=timeout, cwd=core.VERIF)
     if r.returncode != 0:
         raise core.HarnessError(
             f'census subprocess {cfg} failed rc={r.returncode}: '
@@ -612,8 +639,8 @@ def replay_census(case):
     each: more than one distinct outcome over all of these builds is the
     disagreement (a seed or mode dependence gives one outcome per
     configuration, an address dependence several within one)."""
-    outs = []
-    for cfg in (case['a'], case['b']):
+    outs = [case['ref'][:2]] if 'ref' in case else []
+    for cfg in (case['a'], case['b'])[:1 if 'ref' in case else 2]:
         r = census_run(cfg, case['tagbase'], case['slice_of'], case['item'],
                        case['repeat'])
         for o in r.get('@focus', []):
@@ -769,7 +796,8 @@ def _conc_walk(job, on_exec, stop=None):
 
     def on_result(choices, points, res):
         n[0] += 1
-        on_exec(n[0], list(choices), points, res)
+        if on_exec(n[0], list(choices), points, res) == 'stop':
+            raise _Stop()
         if stop is not None and n[0] >= stop:
             raise _Stop()
 
@@ -793,18 +821,20 @@ def work_conc(job):
         pre, _ = cost_of(points, choices)
         case = {'part': 'd', 'scn': scn, 'choices': choices,
                 'refs': job['refs']}
-        for kind, exp, obs, detail in judge_conc(scn, job['refs'], res):
+        dis = judge_conc(scn, job['refs'], res)
+        for kind, exp, obs, detail in dis:
             cands.add(kind, case, {'job': job, 'index': k}, k, exp, obs,
                       detail, pre * 100000 + len(choices) * 100 +
                       len(core.canon(scn)))
         acc.case({'part': 'd', 'scn': scn, 'choices': choices}, pre > 0,
                  [scn, res['log'], res['outcomes']], steps=res['steps'])
         acc.count('scheduling_points', len(points))
+        acc.count('executions')
+        if any(hidden_residue(d[0]) for d in dis):
+            acc.count('shards_stopped_after_hidden_residue')
+            return 'stop'
 
-    r = _conc_walk(job, on_exec)
-    acc.count('executions', r['executions'])
-    if r['capped']:
-        acc.extra['capped_scenarios'] = [core.canon(scn)]
+    _conc_walk(job, on_exec)
     return cands.dump(acc.result())
 
 
@@ -944,7 +974,26 @@ def _resolve(ctx, cands):
     ctx.extra['kinds_seen_but_not_reproduced'] = [k for k, _ in lost]
 
 
-def _census(ctx, tagbase, slice_of, cands):
+def _pristine_refs(ctx, tagbase):
+    """Reference table: each definition is the first thing built in its own
+    fresh NRT process (PYTHONHASHSEED=0)."""
+    from concurrent.futures import ThreadPoolExecutor
+    with ThreadPoolExecutor(min(len(ALL_DEFS), max(2, core.NWORKERS))) as tp:
+        res = list(tp.map(
+            lambda k: census_run(['nrt', '0', 'fwd'], tagbase, 1, 'd:' + k, 1,
+                                 120, True), ALL_DEFS))
+    refs = {k: r['d:' + k][:2] for k, r in zip(ALL_DEFS, res)}
+    for k in GOOD + SMALL:
+        if refs[k][0] != 'ok':
+            raise core.HarnessError(f'reference build of {k} fails: {refs[k]}')
+    for k in FAIL + FAIL_MORE:
+        if refs[k][0] != 'raise':
+            raise core.HarnessError(f'failing definition {k} builds: {refs[k]}')
+    ctx.extra['reference_definitions'] = len(refs)
+    return refs
+
+
+def _census(ctx, tagbase, slice_of, cands, refs):
     from concurrent.futures import ThreadPoolExecutor
     extra = str(1000 + ctx.seed)
     base_cfg = ['nrt', '0', 'fwd']
@@ -955,11 +1004,36 @@ def _census(ctx, tagbase, slice_of, cands):
                 cfgs.append([mode, hs, 'fwd'])
     cfgs.append(['nrt', extra, 'rev'])
     cfgs.append(['rt', '0', 'rev'])
+    # hidden residue already proven by the other parts can make a process
+    # that builds thousands of definitions arbitrarily slow: then the census
+    # is given little time and its absence is a recorded cap, not an error
+    proven = any(hidden_residue(k) for k in cands.small)
+    timeout = 45 if proven else 240
+
+    def one(cfg):
+        try:
+            return census_run(cfg, tagbase, slice_of, timeout=timeout)
+        except subprocess.TimeoutExpired:
+            return None
     with ThreadPoolExecutor(min(len(cfgs), max(2, core.NWORKERS))) as tp:
-        results = list(tp.map(
-            lambda c: census_run(c, tagbase, slice_of), cfgs))
+        results = list(tp.map(one, cfgs))
+    if any(r is None for r in results):
+        if not proven:
+            raise core.HarnessError('a census subprocess timed out')
+        ctx.caps.append('census not completed: a subprocess timed out after '
+                        'hidden residue had been proven by parts a/b/d')
+        return
     base = results[0]
     items = len(base)
+    for k in ALL_DEFS:
+        a, b = refs[k], base['d:' + k][:2]
+        if a[0] != b[0] or (a[0] == 'ok' and a[1] != b[1]):
+            kind = 'census-differs-from-pristine-reference'
+            case = {'part': 'c', 'item': 'd:' + k, 'a': base_cfg,
+                    'b': base_cfg, 'tagbase': tagbase, 'slice_of': slice_of,
+                    'repeat': 8, 'kind': kind, 'ref': a}
+            cands.add(kind, case, None, 0, a, b, f'definition {k} built '
+                      f'among the census items under {base_cfg}', len(k))
     for cfg, got in zip(cfgs[1:], results[1:]):
         for kind, iid, a, b in census_compare(base_cfg, base, cfg, got):
             case = {'part': 'c', 'item': iid, 'a': base_cfg, 'b': cfg,
@@ -977,14 +1051,13 @@ def _census(ctx, tagbase, slice_of, cands):
     ctx.states += items
     for iid, o in base.items():
         ctx.outcomes.add(core.digest(['census', o]))
-    ctx.bounds['census'] = {
+    ctx.bounds['(c) census'] = {
         'items': items, 'configurations': [' '.join(c) for c in cfgs],
         'definitions': len(ALL_DEFS),
-        'programs': items - len(ALL_DEFS)}
+        'programs': items - len(ALL_DEFS),
+        'evaluations': items * len(cfgs)}
     ctx.extra['census_configurations'] = len(cfgs)
     ctx.extra['census_items'] = items
-    refs = {k: base['d:' + k][:2] for k in ALL_DEFS}
-    return refs
 
 
 def _prefixes(nops, depth, shards):
@@ -1021,11 +1094,7 @@ def main(ctx):
     for mode in ('nrt', 'rt'):
         ctx.pool(mode, maxtasks=1)
 
-    # (c) census + reference table
-    refs = _census(ctx, tagbase, 256 if quick else 32, cands)
-    for k in GOOD:
-        if refs[k][0] != 'ok':
-            raise core.HarnessError(f'reference build of {k} fails: {refs[k]}')
+    refs = _pristine_refs(ctx, tagbase)
 
     # (a) repetition
     builds = 3
@@ -1086,4 +1155,7 @@ def main(ctx):
                   cands)
     ctx.extra['scenarios'] = nscn
     ctx.extra['operations'] = ops
+
+    # (c) census
+    _census(ctx, tagbase, 256 if quick else 32, cands, refs)
     _resolve(ctx, cands)
